@@ -9,7 +9,7 @@ use buffer_redux::BufReader;
 use log::debug;
 
 use crate::{
-    armor::{self, header_parser, read_from_buf, BlockType, DearmorOptions, Headers},
+    armor::{self, read_header_from_buf, BlockType, DearmorOptions, Headers},
     composed::ArmorOptions,
     crypto::hash::HashAlgorithm,
     errors::{bail, ensure, ensure_eq, format_err, InvalidInputSnafu, Result},
@@ -176,7 +176,7 @@ where {
         debug!("parsing cleartext message");
         // Headers
         let (typ, headers, has_leading_data) =
-            read_from_buf(&mut b, "cleartext header", opt.limit, header_parser)?;
+            read_header_from_buf(&mut b, "cleartext header", opt.limit)?;
         ensure_eq!(typ, BlockType::CleartextMessage, "unexpected block type");
         ensure!(
             !has_leading_data,
